@@ -280,7 +280,8 @@ def canon_shape(entries):
 
 def gen_cases(plane, tier):
     if plane == "singles":
-        for e in entry_types(names(3 if tier != "quick" else 2)):
+        extra = [".//a", "/.//a", ".//dest", "a//b", ".//..//a", "./a/./b", "a/..//..//b", "..//a", ".///a"] if tier == "quick" else []
+        for e in entry_types(names(3 if tier != "quick" else 2) + extra):
             for cfg in CONFIGS:
                 yield [e], cfg
     elif plane == "pairs":
